@@ -151,7 +151,10 @@ def gen_requests(r, mode, prefix, n):
             body = {"merged": "NOTEBOOK"}
             for k in r.sample(["outputfilename", "path", "fn", "cwd", "filename"], r.randrange(0, 3)):
                 body[k] = r.choice(pathish)
-            reqs.append(("store-valid", "POST", api + "/api/store", body))
+            # ... and / or in the URL's query string
+            from urllib.parse import urlencode
+            q = {k: r.choice(pathish + ["stored-by-query.ipynb"]) for k in r.sample(["outputfilename", "path", "fn", "out"], r.choice([0, 0, 1, 2]))}
+            reqs.append(("store-valid", "POST", api + "/api/store" + (("?" + urlencode(q)) if q else ""), body))
         elif c < 0.55:
             bad = r.choice([{"merged": "a string"}, {"merged": [1, 2]}, {"merged": None}, {"nothing": 1}, {"merged": 3}])
             reqs.append(("store-malformed", "POST", api + "/api/store", json.dumps(bad).encode()))
